@@ -141,7 +141,10 @@ func successCEA(sm *StateMachine, c diam.Conn, m *diam.Message, cer *smparser.CE
 	if cer.OriginStateID != nil {
 		a.AddAVP(cer.OriginStateID)
 	}
-	for _, app := range sm.supportedApps {
+	// The applications of the dictionary this connection uses (Server.Dict,
+	// or dict.Default), by which the CER was judged: a success CEA names at
+	// least the applications it shares with the peer.
+	for _, app := range PrepareSupportedApps(m.Dictionary()) {
 		var typ uint32
 		switch app.AppType {
 		case "auth":
